@@ -31,8 +31,41 @@ def make_job(spec, size):
                exact_floats=spec.exact_floats, timeout_s=spec.timeout_s)
 
 
+def multipitch_empty_frames_job(ref_counts, est_counts):
+    """multipitch frames with the given numbers of pitches per frame (0 = an empty frame; a side may have no pitch at all)"""
+    import numpy as np
+    from symx import core as S
+    from . import common as C
+    spec = T.by_name('multipitch.metrics')
+
+    def build(ctx):
+        n = len(ref_counts)
+        t = C.events(ctx, 't', n, strict=True)
+
+        def frames(tag, counts):
+            return [C.log_freqs(ctx, '%s%d_' % (tag, i), k) if k else (S._wrap(np.zeros((0,), dtype=object))) for i, k in enumerate(counts)]
+        return dict(ref=(t, frames('rf', ref_counts)), est=(t.copy(), frames('ef', est_counts)), kw={})
+
+    def body(A, inp):
+        def fix(side):
+            t, fr = side
+            return (t, [f if len(f) else np.array([]) for f in fr]) if not A.sym else side
+        a = dict(ref=fix(inp['ref']), est=fix(inp['est']), kw=inp['kw'])
+        r1 = spec.call(a)
+        r2 = spec.call(a, swap=True)
+        for (nm, kind), v in zip(spec.outs, r1):
+            A.observe(nm, v)
+        # precision <-> recall, accuracy symmetric (raw and chroma); the error scores are normalised by the reference count and do not swap
+        for i, j in ((0, 1), (1, 0), (2, 2), (7, 8), (8, 7), (9, 9)):
+            A.require(A.eq(r1[i], r2[j]), '%s:%s(a,b)==%s(b,a)' % (spec.name, spec.outs[i][0], spec.outs[j][0]))
+    return Job('C06', 'multipitch.metrics[pitches per frame ref %s est %s]' % (list(ref_counts), list(est_counts)), build, body, funcs=spec.funcs,
+               bounds=dict(ref_counts=list(ref_counts), est_counts=list(est_counts)), exact_floats=False, timeout_s=900)
+
+
 def jobs(tier):
     js = []
+    for rc, ec in ([((0,), (1,)), ((1, 0), (0, 1)), ((1,), (2,))] if tier == 'quick' else [((0,), (1,)), ((0, 0), (1, 2)), ((1, 0), (0, 1)), ((2, 0), (1, 1)), ((1,), (2,)), ((2, 1), (1, 2))]):
+        js.append(multipitch_empty_frames_job(rc, ec))
     for spec in T.SPECS + T.structure_specs(tier):
         if spec.swap is None or 'C06' in spec.skip:
             continue
